@@ -29,6 +29,27 @@ def run(chk):
     from props import plans_common as pc
     pg = [[2, 5, 10], [13, 19], [26], [33], [40]] if chk.quick else [[k] for k in (1, 2, 3, 5, 7, 10, 11, 13, 17, 19, 23, 26, 30, 33, 40, 49, 60, 75, 101)]
     ok = pc.run_plans(chk, exe, pg, 4 if chk.quick else 10, 'c02') and ok
+    # ... and the same runs observed at every first-phase step and phase end, checked against Solver.tla (Figure 6 etc.)
+    sjobs = [[2, 5], [10], [13], [26]] if chk.quick else [[k] for k in (1, 2, 3, 5, 7, 10, 11, 13, 17, 19, 23, 26, 30, 33, 40, 49, 60)]
+    straces = []
+    for i, g in enumerate(sjobs):
+        t = vlib.workfile('c02_solver_%d.ndjson' % i)
+        rc, out = vlib.run_drv(exe, ['solver', '--jobs', ';'.join(map(str, g)), '--decodes', 3 if chk.quick else 8, '--seed', chk.seed + 3 * i, '--out', t])
+        if rc != 0:
+            raise vlib.ToolError('solver driver failed: ' + out[-300:])
+        straces.append(t)
+    sres = vlib.tlc_parallel([dict(module='Trace_Solver', env={'TRACE': t}, deque=True, timeout=6000, xmx='4g', tag='Trace_Solver[%d]' % i)
+                              for i, t in enumerate(straces)], max_parallel=12)
+    nmarks = 0
+    for i, (t, r) in enumerate(zip(straces, sres)):
+        import json as _json
+        n = sum(len(_json.loads(l).get('marks', [])) for l in open(t))
+        nmarks += n
+        ok = vlib.judge_trace(chk, r, 'Trace_Solver', t, 'Trace_Solver[%d]' % i, nruns=sum(1 for l in open(t) if '"solve"' in l),
+                              key_of=lambda ev, mism: ('solver:K=%s:route=%s' % (ev.get('k'), ev.get('route'))) if ev else None) and ok
+    chk.cov['solver_observation_points'] = nmarks
+    res = vlib.tlc('MC_Solver', cfg='MC_Solver.cfg' if chk.quick else 'MC_Solver_thorough.cfg', workers=6, xss='64m', timeout=6000, tag='MC_Solver')
+    vlib.expect_mc_ok(chk, res, 'MC_Solver')
     # the None direction: hunt for failing sets with the real decoder, TLC certifies each one as rank deficient
     from props import c03
     hk, n0, n1 = ([10, 13, 19, 26], 40000, 200000) if chk.quick else ([10, 11, 13, 19, 26, 31, 40, 49, 60], 400000, 4000000)
@@ -47,5 +68,8 @@ def run(chk):
                        'sparse/dense back-end. Every call\'s Some/None and bytes validated by TLC (exact rank, K\' <= %d). '
                        'distinct_nontrivial = sequences accepted; legitimate failures (None at >= K symbols, certified rank '
                        'deficient by TLC) are counted separately; plus a hunt: random K and K+1 subsets decoded by the real decoder, every '
-                       'failing set logged and certified rank deficient by TLC.' % rankmax)
+                       'failing set logged and certified rank deficient by TLC. Solver internals: recorded operation vectors replayed on the RFC '
+                       'matrix (Elim.tla) and the phase structure (Figure 6, phase-end predicates of Solver.tla) checked at every '
+                       'observation point; MC_Solver: the liberal solver schema ends solved iff the system has full rank, on all '
+                       'binary 4x3 (5x3) systems.' % rankmax)
     chk.assumptions += ['rank oracle: Rfc6330!FullRank (TLC); tables frozen in spec']
